@@ -137,6 +137,10 @@ def spec_case(name, rule, k, outty, specfn, nan=True, base=None):
                 st, detail = R.PROVED, 'term identical to the definition'
             elif outty.isfloat:
                 st, detail = S.compare(t, want, pc=pc, nan=nan)
+                if st == R.UNDECIDED:
+                    wit = L.pattern_witness(t, want)
+                    if wit:
+                        st, detail = R.REFUTED, 'differs from the definition for the input bit patterns %s: %#x versus %#x (got %s ; definition %s)' % (wit[0], wit[1], wit[2], tm.show(t, 4), tm.show(want, 4))
             else:
                 from laneflow import bitlogic as BL
                 if t.w == 1 or (t.op == 'concat' and all(p.op == 'const' for p in t.args[1:])):
@@ -478,6 +482,45 @@ def canaries():
     return [R.Case('canary:pi-with-15-digits', [k], j1, canary=True), c2]
 
 
+# ---- gtx/common and gtx/compatibility helpers --------------------------------------------------------------------------------------------------------
+
+def gtx_cases(T, tier):
+    """fmod == std::fmod per component in the element type (no narrowing), openBounded / closeBounded, lerp == mix, saturate == clamp(x, 0, 1),
+    isfinite, isdenormal (bit-level classes)"""
+    cs = []
+    cfgx = Cfg('gtxc', headers=HDR + ('glm/gtx/compatibility.hpp',), defines=('GLM_ENABLE_EXPERIMENTAL',))
+    sc, bt = G.scalar(T), G.scalar('bool')
+    w = sc.elem * 8
+    tg = sc.tag
+    c = lambda v: S.const(w, v)
+    X = lambda nm='x': S.lane(nm, sc, 0)
+
+    def add(name, params, body, outty, specfn, nan=True):
+        k = K('%s_%s' % (''.join(ch if ch.isalnum() else '_' for ch in name), tg), [Par('o', outty, False)] + params, body, cfgx)
+        cs.append(spec_case('%s<%s>' % (name, tg), 'gtx_helpers', k, outty, specfn, nan=nan))
+    frem = lambda a, b: S.E(tm.mk('frem', (a.t, b.t), w))
+    add('fmod(x,y)', [Par('x', sc), Par('y', sc)], '*o = glm::fmod(*x, *y);', sc, lambda: {0: frem(X(), X('y'))})
+    for n in ((1, 4) if tier == 'quick' else (1, 2, 3, 4)):
+        vt, bv = G.vec(n, T), G.vec(n, 'bool')
+        V = lambda nm, vt=vt: S.vecE(nm, vt)
+        add('fmod(vec%d,vec%d)' % (n, n), [Par('x', vt), Par('y', vt)], '*o = glm::fmod(*x, *y);', vt, lambda V=V, n=n: {i: frem(V('x')[i], V('y')[i]) for i in range(n)})
+        add('fmod(vec%d,scalar)' % n, [Par('x', vt), Par('y', sc)], '*o = glm::fmod(*x, *y);', vt, lambda V=V, n=n: {i: frem(V('x')[i], X('y')) for i in range(n)})
+        zb = lambda b_: tm.zext(b_, 8)
+        add('openBounded(vec%d)' % n, [Par('x', vt), Par('y', vt), Par('z', vt)], '*o = openBounded(*x, *y, *z);', bv,
+            lambda V=V, n=n: {i: zb(tm.and_(V('y')[i].lt(V('x')[i]), V('x')[i].lt(V('z')[i]))) for i in range(n)})
+        add('closeBounded(vec%d)' % n, [Par('x', vt), Par('y', vt), Par('z', vt)], '*o = closeBounded(*x, *y, *z);', bv,
+            lambda V=V, n=n: {i: zb(tm.and_(V('y')[i].le(V('x')[i]), V('x')[i].le(V('z')[i]))) for i in range(n)})
+        if n == 1:
+            continue          # gtx/compatibility declares lerp / saturate for scalars and vec2..vec4 only
+        add('lerp(vec%d,vec%d,a)' % (n, n), [Par('x', vt), Par('y', vt), Par('z', sc)], '*o = lerp(*x, *y, *z);', vt, lambda V=V, n=n: {i: V('x')[i] * (1 - X('z')) + V('y')[i] * X('z') for i in range(n)})
+        add('saturate(vec%d)' % n, [Par('x', vt)], '*o = saturate(*x);', vt, lambda V=V, n=n: {i: S.gclamp(V('x')[i], c(0), c(1)) for i in range(n)})
+    add('lerp(x,y,a)', [Par('x', sc), Par('y', sc), Par('z', sc)], '*o = lerp(*x, *y, *z);', sc, lambda: {0: X() * (1 - X('z')) + X('y') * X('z')})
+    add('saturate(x)', [Par('x', sc)], '*o = saturate(*x);', sc, lambda: {0: S.gclamp(X(), c(0), c(1))})
+    inf = tm.fconst(w, float('inf'))
+    add('isfinite(x)', [Par('x', sc)], '*o = glm::isfinite(*x);', bt, lambda: {0: tm.zext(tm.fcmp('one', tm.fabs(X().t), inf), 8)})
+    return cs
+
+
 def cases(tier):
     cs = []
     cs += canaries()
@@ -489,6 +532,7 @@ def cases(tier):
         cs += special_cases(T)
         cs += idiom_cases(T)
         cs += range_cases(T)
+        cs += gtx_cases(T, tier)
     return cs
 
 
